@@ -133,94 +133,14 @@ def r2(ctx):
 
 
 def r3(ctx):
-    """session accounting in sync_process_message, looked for in the function, its closures and its
-    single-caller helpers (scope); sites are placed in the function body through outer_site"""
-    from .common import outer_leaves, outer_site, variant_edges, dominated_by_any
-    f = ctx.facts
-    b = f.body(SPM)
-    ctx.touch(b)
-    sc = f.scope(SPM, prefix="sync::")
-    pmc = [(bi, t) for bi, t in b.calls() if t["f"].get("name") == "process_message"]
-    if len(pmc) != 1:
-        raise mir.AnchorMissing("sync_process_message: process_message call not found")
-    pbi = pmc[0][0]
-    after = b.reachable(pbi)
-
-    def names(body, op):
-        return {(o.kind, o.data[1] if o.kind == "arg" else o.data) if o.kind in ("arg", "upvar") else ("other", origin_summary(o)) for _, o in outer_leaves(f, b, body, op, expand_calls=False)}
-
-    def counter_adds(field):
-        out = []
-        for x in sc:
-            for bi, si, st in x.statements():
-                if st["k"] == "assign" and st["r"][0] == "bin" and st["r"][1] in ("Add", "AddWithOverflow"):
-                    ops = (st["r"][2], st["r"][3])
-                    if any(o[0] in ("copy", "move") and any(pr[0] == "field" and pr[2] == field for pr in o[1]["p"]) for o in ops):
-                        other = [o for o in ops if not (o[0] in ("copy", "move") and any(pr[0] == "field" and pr[2] == field for pr in o[1]["p"]))]
-                        out.append((x, bi, st, other[0] if other else None))
-        return out
-
-    def value_count_of(body, op):
-        """names of the message whose value_count() feeds `op`"""
-        res = set()
-        if op is None or op[0] == "const":
-            return res
-        for o in trace(body, op, through_calls=False):
-            if o.kind == "call" and o.data["f"].get("name") == "value_count":
-                res |= names(body, o.data["a"][0])
-            else:
-                res.add(("other", origin_summary(o)))
-        return res
-    radds = counter_adds("num_recv")
-    ok = len(radds) == 1
-    why = "%d additions to num_recv" % len(radds)
-    if ok:
-        x, bi, st, other = radds[0]
-        src = value_count_of(x, other)
-        ob = outer_site(f, b, x, bi)
-        ok = src in ({("upvar", "message")}, {("arg", "message")}) and ob is not None and b.dominates(ob, pbi) and ob not in after
-        why = "num_recv += value_count(%s), placed %s process_message" % (sorted(src), "before" if ob is not None and ob not in after else "not before")
-    ctx.check(ok, "C01.R3", SPM, "num_recv+=message.value_count()-before-processing", "the received counter is increased by the incoming value count before process_message (%s)" % why, radds[0][2]["sp"] if radds else b.sp)
-    sadds = counter_adds("num_sent")
-    oks = len(sadds) == 1
-    why = "%d additions to num_sent" % len(sadds)
-    if oks:
-        x, bi, st, other = sadds[0]
-        ob = outer_site(f, b, x, bi)
-        es = variant_edges(b, lambda ty: ty.startswith("std::option::Option<") and "ranger::Message" in ty, 1)
-        doms = ob is not None and dominated_by_any(b, es, ob)
-        from_reply = False
-        if other is not None and other[0] != "const":
-            for o in trace(x, other, through_calls=False):
-                if o.kind == "call" and o.data["f"].get("name") == "value_count":
-                    # the counted message is the reply: it derives from process_message's result
-                    from_reply = any(oo.kind == "call" and oo.data["f"].get("name") in ("process_message", "branch", "into_future", "poll", "get_context", "new_unchecked") or oo.kind in ("local", "unknown", "expr")
-                                     for _, oo in outer_leaves(f, b, x, o.data["a"][0], expand_calls=False)) and \
-                        not ({("upvar", "message"), ("arg", "message")} & names(x, o.data["a"][0]))
-        oks = bool(doms) and from_reply and ob in after
-        why = "on the Some(reply) edge: %s; counts the reply: %s; after processing: %s" % (bool(doms), from_reply, ob in after if ob is not None else None)
-    ctx.check(oks, "C01.R3", SPM, "num_sent+=reply.value_count()-iff-reply", "the sent counter is increased by the reply's value count exactly on the Some(reply) edge, after processing (%s)" % why, sadds[0][2]["sp"] if sadds else b.sp)
-    # heads_received.insert(entry.author(), entry.timestamp()) for every incoming value
-    ins = [(x, bi, t) for x in sc for bi, t in x.calls() if callee_matches(t, r"heads::AuthorHeads::insert$")]
-    okh = len(ins) == 1
-    why = "%d calls of AuthorHeads::insert" % len(ins)
-    if okh:
-        x, bi, t = ins[0]
-        a1 = {o.data["f"].get("name") for o in trace(x, t["a"][1], through_calls=False) if o.kind == "call"}
-        a2 = {o.data["f"].get("name") for o in trace(x, t["a"][2], through_calls=False) if o.kind == "call"}
-        recv_f = {".".join(mir.field_path(o)) for _, o in outer_leaves(f, b, x, t["a"][0], expand_calls=False)} | {".".join(mir.field_path(o)) for o in trace(x, t["a"][0])}
-        vals = [(y, bi2, t2) for y in sc for bi2, t2 in y.calls() if t2["f"].get("name") == "values" and callee_matches(t2, r"ranger::Message")]
-        of_message = len(vals) == 1 and names(vals[0][0], vals[0][2]["a"][0]) in ({("upvar", "message")}, {("arg", "message")})
-        ob = outer_site(f, b, x, bi)
-        vb = outer_site(f, b, vals[0][0], vals[0][1]) if len(vals) == 1 else None
-        # every value: the insert sits in a loop over message.values() or in a closure handed to for_each on it, with no filter in between
-        skipping = [t3["f"].get("name") for y in sc for _, t3 in y.calls() if t3["f"].get("name") in ("filter", "take", "skip", "step_by", "take_while", "skip_while", "filter_map") and y in (x, vals[0][0] if vals else x)]
-        okh = a1 == {"author"} and a2 == {"timestamp"} and any("heads_received" in z for z in recv_f) and of_message and ob is not None and ob not in after and vb is not None and vb not in after and not skipping
-        why = "insert(%s, %s) into %s over values() of %s, placed %s processing, skipping adaptors %s" % (sorted(a1), sorted(a2), sorted(recv_f), "the incoming message" if of_message else "?", "before" if ob is not None and ob not in after else "not before", skipping)
-    ctx.check(okh, "C01.R3", SPM, "heads_received<-(author,timestamp)-of-every-incoming-value", "loop over message.values() inserting (entry.author(), entry.timestamp()) before processing (%s)" % why, ins[0][2]["sp"] if ins else b.sp)
-    vcb = f.body("ranger::Message::<E>::value_count")
+    """session accounting: one reconciliation step of the replica evaluated (rules/syncstep.py) - num_recv, heads_received and
+    num_sent read off the state the step leaves behind (replaces the source-shaped placement rule of the first rounds, which
+    reported helper extractions such as `SyncOutcome::record_sent(Option<&Message>)`)"""
+    from . import syncstep
+    syncstep.check(ctx, "C01.R3")
+    vcb = ctx.facts.body("ranger::Message::<E>::value_count")
     ctx.touch(vcb)
-    ctx.floor("C01.R3", 3)
+    ctx.floor("C01.R3", 6)
 
 
 def r4(ctx):
@@ -573,6 +493,14 @@ def r7(ctx):
     ctx.floor("C01.R7", 20)
 
 
+def r8(ctx):
+    """"each side's sent-count equals the other side's received-count": the counts a side reports are those of its last step -
+    the session functions evaluated on every frame script (= C10.R1/R2; the accounting of one step is R3)"""
+    from . import C10
+    ctx.share("C01.R8", C10.r1, "C10.R1", floor=3)
+    ctx.share("C01.R8", C10.r2, "C10.R2", floor=3)
+
+
 def run(ctx):
     ctx.run_rule("C01.R1", r1)
     ctx.run_rule("C01.R2", r2)
@@ -581,3 +509,4 @@ def run(ctx):
     ctx.run_rule("C01.R5", r5)
     ctx.run_rule("C01.R6", r6)
     ctx.run_rule("C01.R7", r7)
+    ctx.run_rule("C01.R8", r8)
